@@ -17,6 +17,7 @@ _C19_AVOID = ",".join([
     "cmp-chain",           # `a < b < c`: third operand silently dropped
     "cmp-eq-rel",          # `a == b < c` parsed as a == (b < c)
     "andor-mixed",         # `a or b and c` parsed as a or (b and c)
+    "arg-zeroext",         # stl/wasm/node.go passes negative i8/i16 samples zero-extended (TestC19Runtime)
 ])
 
 CHECKS["C19"] = dict(
@@ -61,6 +62,8 @@ CHECKS["C19"] = dict(
     tests=[
         dict(name="TestC19", env={"C19_AVOID_DEFAULT": _C19_AVOID},
              quick=dict(cases=5000, shards=8, timeout=900), thorough=dict(cases=25000, shards=16, timeout=3000)),
+        dict(name="TestC19Runtime", env={"C19_AVOID_DEFAULT": _C19_AVOID},
+             quick=dict(cases=4000, shards=4, timeout=900), thorough=dict(cases=25000, shards=16, timeout=3000)),
         dict(name="TestC19NoCrash",
              quick=dict(cases=30000, shards=2, timeout=900), thorough=dict(cases=150000, shards=16, timeout=3000)),
     ],
